@@ -1,7 +1,7 @@
 (* C01 — correspondence driver *)
 From Coq Require Import ZArith NArith Bool List.
 Import ListNotations.
-Require Import FV.Base.Util FV.Base.F64 FV.Base.PyVal FV.C01.Model.
+Require Import FV.Base.Util FV.Base.F64 FV.Base.PyVal FV.C01.Model FV.C01.IdemDefs.
 
 Inductive op := OpCall | OpValidate | OpImport | OpWire.
 
@@ -30,9 +30,12 @@ Definition case_in_domain (c : case) : bool :=
   | _ => true
   end.
 
+(* besides model = implementation: the datatype (built by the real constructors) satisfies idem_dt, the
+   assumption of the idempotence theorems about what the constructors guarantee *)
 Definition check_case (c : case) : bool :=
   negb (case_in_domain c) ||
-  (res_same (model_result c) (c_obs c) &&
+  (idem_dt (c_d c) &&
+   res_same (model_result c) (c_obs c) &&
    match c_obs2 c, model_result c with
    | Some o2, Ok r => res_same (dt_validate (c_d c) r PNone) o2
    | _, _ => true
